@@ -1,0 +1,419 @@
+//! Read-only observation hooks for external verification tooling.
+//!
+//! This module is only compiled with `--cfg numbat_verif`. It adds no behaviour:
+//! every function returns plain data (strings, numbers, vectors) derived from the
+//! existing state.
+
+use crate::Context;
+use crate::ast::{BinaryOperator, Expression, Statement, StringPart, UnaryOperator};
+use crate::prefix::Prefix;
+use crate::prefix_parser::PrefixParserResult;
+use crate::quantity::Quantity;
+use crate::unit::{Unit, UnitFactor};
+use crate::value::Value;
+
+fn binop_name(op: &BinaryOperator) -> &'static str {
+    match op {
+        BinaryOperator::Add => "add",
+        BinaryOperator::Sub => "sub",
+        BinaryOperator::Mul => "mul",
+        BinaryOperator::Div => "div",
+        BinaryOperator::Power => "pow",
+        BinaryOperator::ConvertTo => "conv",
+        BinaryOperator::LessThan => "lt",
+        BinaryOperator::GreaterThan => "gt",
+        BinaryOperator::LessOrEqual => "le",
+        BinaryOperator::GreaterOrEqual => "ge",
+        BinaryOperator::Equal => "eq",
+        BinaryOperator::NotEqual => "ne",
+        BinaryOperator::LogicalAnd => "and",
+        BinaryOperator::LogicalOr => "or",
+    }
+}
+
+fn sexpr_expr(e: &Expression, out: &mut String) {
+    match e {
+        Expression::Scalar(_, n) => {
+            out.push_str(&format!("(num {:?})", n.to_f64()));
+        }
+        Expression::Identifier(_, name) => {
+            out.push_str(&format!("(id {name})"));
+        }
+        Expression::UnitIdentifier {
+            prefix, full_name, ..
+        } => {
+            out.push_str(&format!("(unit {prefix:?} {full_name})"));
+        }
+        Expression::TypedHole(_) => out.push_str("(hole)"),
+        Expression::UnaryOperator { op, expr, .. } => {
+            match op {
+                UnaryOperator::Factorial(n) => out.push_str(&format!("(fact{} ", n.get())),
+                UnaryOperator::Negate => out.push_str("(neg "),
+                UnaryOperator::LogicalNeg => out.push_str("(not "),
+            }
+            sexpr_expr(expr, out);
+            out.push(')');
+        }
+        Expression::BinaryOperator { op, lhs, rhs, .. } => {
+            out.push('(');
+            out.push_str(binop_name(op));
+            out.push(' ');
+            sexpr_expr(lhs, out);
+            out.push(' ');
+            sexpr_expr(rhs, out);
+            out.push(')');
+        }
+        Expression::FunctionCall { callable, args, .. } => {
+            out.push_str("(call ");
+            sexpr_expr(callable, out);
+            for a in args {
+                out.push(' ');
+                sexpr_expr(a, out);
+            }
+            out.push(')');
+        }
+        Expression::Boolean(_, b) => out.push_str(&format!("(bool {b})")),
+        Expression::String(_, parts) => {
+            out.push_str("(str");
+            for p in parts {
+                match p {
+                    StringPart::Fixed(s) => out.push_str(&format!(" (fixed {s:?})")),
+                    StringPart::Interpolation {
+                        expr,
+                        format_specifiers,
+                        ..
+                    } => {
+                        out.push_str(" (interp ");
+                        sexpr_expr(expr, out);
+                        if let Some(f) = format_specifiers {
+                            out.push_str(&format!(" {f:?}"));
+                        }
+                        out.push(')');
+                    }
+                }
+            }
+            out.push(')');
+        }
+        Expression::Condition {
+            condition,
+            then_expr,
+            else_expr,
+            ..
+        } => {
+            out.push_str("(if ");
+            sexpr_expr(condition, out);
+            out.push(' ');
+            sexpr_expr(then_expr, out);
+            out.push(' ');
+            sexpr_expr(else_expr, out);
+            out.push(')');
+        }
+        Expression::InstantiateStruct { name, fields, .. } => {
+            out.push_str(&format!("(struct {name}"));
+            for (_, n, e) in fields {
+                out.push_str(&format!(" ({n} "));
+                sexpr_expr(e, out);
+                out.push(')');
+            }
+            out.push(')');
+        }
+        Expression::AccessField {
+            expr, field_name, ..
+        } => {
+            out.push_str("(field ");
+            sexpr_expr(expr, out);
+            out.push_str(&format!(" {field_name})"));
+        }
+        Expression::List(_, elements) => {
+            out.push_str("(list");
+            for e in elements {
+                out.push(' ');
+                sexpr_expr(e, out);
+            }
+            out.push(')');
+        }
+    }
+}
+
+fn sexpr_stmt(s: &Statement, out: &mut String) {
+    use crate::pretty_print::PrettyPrint;
+    match s {
+        Statement::Expression(e) => sexpr_expr(e, out),
+        Statement::DefineVariable(dv) => {
+            out.push_str(&format!("(let {} ", dv.identifier));
+            if let Some(t) = &dv.type_annotation {
+                out.push_str(&format!("(type {:?}) ", t.pretty_print().to_string()));
+            }
+            sexpr_expr(&dv.expr, out);
+            out.push(')');
+        }
+        Statement::DefineFunction {
+            function_name,
+            type_parameters,
+            parameters,
+            body,
+            local_variables,
+            return_type_annotation,
+            ..
+        } => {
+            out.push_str(&format!("(fn {function_name} (tparams"));
+            for (_, n, b) in type_parameters {
+                out.push_str(&format!(" {n}{}", if b.is_some() { ":Dim" } else { "" }));
+            }
+            out.push_str(") (params");
+            for (_, n, t) in parameters {
+                match t {
+                    Some(t) => {
+                        out.push_str(&format!(" ({n} {:?})", t.pretty_print().to_string()))
+                    }
+                    None => out.push_str(&format!(" ({n})")),
+                }
+            }
+            out.push(')');
+            if let Some(t) = return_type_annotation {
+                out.push_str(&format!(" (ret {:?})", t.pretty_print().to_string()));
+            }
+            if let Some(b) = body {
+                out.push(' ');
+                sexpr_expr(b, out);
+            }
+            for dv in local_variables {
+                out.push_str(&format!(" (where {} ", dv.identifier));
+                sexpr_expr(&dv.expr, out);
+                out.push(')');
+            }
+            out.push(')');
+        }
+        Statement::DefineDimension(_, name, exprs) => {
+            out.push_str(&format!("(dimension {name}"));
+            for e in exprs {
+                out.push_str(&format!(" {:?}", e.pretty_print().to_string()));
+            }
+            out.push(')');
+        }
+        Statement::DefineBaseUnit(_, name, t, decorators) => {
+            out.push_str(&format!("(baseunit {name}"));
+            if let Some(t) = t {
+                out.push_str(&format!(" {:?}", t.pretty_print().to_string()));
+            }
+            out.push_str(&format!(" (decorators {})", decorators.len()));
+            out.push(')');
+        }
+        Statement::DefineDerivedUnit {
+            identifier,
+            expr,
+            type_annotation,
+            decorators,
+            ..
+        } => {
+            out.push_str(&format!("(unitdef {identifier} "));
+            if let Some(t) = type_annotation {
+                out.push_str(&format!("(type {:?}) ", t.pretty_print().to_string()));
+            }
+            sexpr_expr(expr, out);
+            out.push_str(&format!(" (decorators {})", decorators.len()));
+            out.push(')');
+        }
+        Statement::ProcedureCall(_, kind, args) => {
+            out.push_str(&format!("(proc {}", kind.name()));
+            for a in args {
+                out.push(' ');
+                sexpr_expr(a, out);
+            }
+            out.push(')');
+        }
+        Statement::ModuleImport(_, path) => {
+            out.push_str(&format!("(use {})", path.0.join("::")));
+        }
+        Statement::DefineStruct {
+            struct_name,
+            fields,
+            ..
+        } => {
+            out.push_str(&format!("(structdef {struct_name}"));
+            for (_, n, t) in fields {
+                out.push_str(&format!(" ({n} {:?})", t.pretty_print().to_string()));
+            }
+            out.push(')');
+        }
+    }
+}
+
+/// Canonical text of the syntax tree the parser builds for `code` (one
+/// s-expression per statement), or the parse error messages.
+pub fn parse_sexpr(code: &str) -> Result<Vec<String>, Vec<String>> {
+    match crate::parser::parse(code, 0) {
+        Ok(stmts) => Ok(stmts
+            .iter()
+            .map(|s| {
+                let mut out = String::new();
+                sexpr_stmt(s, &mut out);
+                out
+            })
+            .collect()),
+        Err((_, errs)) => Err(errs.iter().map(|e| e.to_string()).collect()),
+    }
+}
+
+/// One factor of a unit: (unit name, canonical name, prefix kind, prefix exponent, exponent numerator, exponent denominator)
+pub type FactorParts = (String, String, &'static str, i32, i128, i128);
+
+fn prefix_parts(p: &Prefix) -> (&'static str, i32) {
+    match p {
+        Prefix::Metric(e) => ("metric", *e),
+        Prefix::Binary(e) => ("binary", *e),
+    }
+}
+
+fn factor_parts(f: &UnitFactor) -> FactorParts {
+    let (pk, pe) = prefix_parts(&f.prefix);
+    (
+        f.unit_id.name.to_string(),
+        f.unit_id.canonical_name.name.to_string(),
+        pk,
+        pe,
+        *f.exponent.numer(),
+        *f.exponent.denom(),
+    )
+}
+
+pub fn unit_parts(u: &Unit) -> Vec<FactorParts> {
+    u.iter().map(factor_parts).collect()
+}
+
+pub struct QuantityParts {
+    pub value: f64,
+    pub unit: Vec<FactorParts>,
+    pub can_simplify: bool,
+    /// base unit representation of the unit (factors over base units) and the conversion factor the
+    /// implementation computes for it
+    pub base_unit: Vec<FactorParts>,
+    pub base_factor: f64,
+}
+
+pub fn quantity_parts(q: &Quantity) -> QuantityParts {
+    let (bu, bf) = q.unit().to_base_unit_representation();
+    QuantityParts {
+        value: q.unsafe_value().to_f64(),
+        unit: unit_parts(q.unit()),
+        can_simplify: q.can_simplify(),
+        base_unit: unit_parts(&bu),
+        base_factor: bf.to_f64(),
+    }
+}
+
+/// Resolve an identifier with the session's prefix parser:
+/// Some((prefix kind, prefix exponent, alias as written, full unit name)) for a unit reading.
+pub fn resolve_identifier(ctx: &Context, ident: &str) -> Option<(&'static str, i32, String, String)> {
+    match ctx.prefix_transformer.prefix_parser.parse(ident) {
+        PrefixParserResult::Identifier(_) => None,
+        PrefixParserResult::UnitIdentifier(_, prefix, alias, full) => {
+            let (pk, pe) = prefix_parts(&prefix);
+            Some((pk, pe, alias.to_string(), full.to_string()))
+        }
+    }
+}
+
+pub struct UnitTableEntry {
+    pub name: String,
+    pub canonical_name: String,
+    pub canonical_short: bool,
+    pub canonical_long: bool,
+    /// (alias, accepts short prefixes, accepts long prefixes)
+    pub aliases: Vec<(String, bool, bool)>,
+    pub metric_prefixes: bool,
+    pub binary_prefixes: bool,
+    pub is_base: bool,
+    /// for derived units: conversion factor and the defining unit's factors
+    pub factor: f64,
+    pub defining_unit: Vec<FactorParts>,
+    /// base dimension representation of the unit's type: (base dimension, numerator, denominator)
+    pub dimension: Vec<(String, i128, i128)>,
+}
+
+/// The session's complete unit table with each unit's *direct* definition.
+pub fn unit_table(ctx: &Context) -> Vec<UnitTableEntry> {
+    let mut out = vec![];
+    for (name, (_baserep, meta)) in ctx.unit_representations() {
+        let unit = ctx.interpreter.get_defining_unit(&name);
+        let (is_base, factor, defining_unit) = match unit {
+            Some(u) => {
+                let f = u.iter().next().unwrap();
+                if f.unit_id.is_base() {
+                    (true, 1.0, vec![])
+                } else {
+                    let crate::unit::BaseUnitAndFactor(du, fac) = f.unit_id.unit_and_factor();
+                    (false, fac.to_f64(), unit_parts(&du))
+                }
+            }
+            None => (true, f64::NAN, vec![]),
+        };
+        let dimension = match &meta.type_ {
+            crate::Type::Dimension(d) => d
+                .to_base_representation()
+                .iter()
+                .map(|crate::BaseRepresentationFactor(n, e)| {
+                    (n.to_string(), *e.numer(), *e.denom())
+                })
+                .collect(),
+            _ => vec![],
+        };
+        out.push(UnitTableEntry {
+            name: name.to_string(),
+            canonical_name: meta.canonical_name.name.to_string(),
+            canonical_short: meta.canonical_name.accepts_prefix.short,
+            canonical_long: meta.canonical_name.accepts_prefix.long,
+            aliases: meta
+                .aliases
+                .iter()
+                .map(|(a, ap)| (a.to_string(), ap.short, ap.long))
+                .collect(),
+            metric_prefixes: meta.metric_prefixes,
+            binary_prefixes: meta.binary_prefixes,
+            is_base,
+            factor,
+            defining_unit,
+            dimension,
+        });
+    }
+    out
+}
+
+/// The raw (unsimplified) value currently bound to a global name (innermost binding).
+pub fn global_raw(ctx: &Context, name: &str) -> Option<Value> {
+    ctx.interpreter.verif_global_value(name)
+}
+
+/// The static type of a global identifier, as the checker stores it:
+/// Some(Ok(base dimension factors)) for dimension types, Some(Err(text)) for other types.
+#[allow(clippy::type_complexity)]
+pub fn global_type(ctx: &Context, name: &str) -> Option<Result<Vec<(String, i128, i128)>, String>> {
+    let scheme = ctx.typechecker.lookup_identifier_type(name)?;
+    let t = scheme.to_concrete_type();
+    Some(type_parts(&t))
+}
+
+pub fn type_parts(t: &crate::Type) -> Result<Vec<(String, i128, i128)>, String> {
+    match t {
+        crate::Type::Dimension(d) => Ok(d
+            .to_base_representation()
+            .iter()
+            .map(|crate::BaseRepresentationFactor(n, e)| (n.to_string(), *e.numer(), *e.denom()))
+            .collect()),
+        other => Err(other.to_string()),
+    }
+}
+
+/// Base dimension representation of a named dimension
+pub fn dimension_base_repr(ctx: &Context, name: &str) -> Option<Vec<(String, i128, i128)>> {
+    ctx.dimension_registry()
+        .get_base_representation_for_name(name)
+        .ok()
+        .map(|b| {
+            b.iter()
+                .map(|crate::BaseRepresentationFactor(n, e)| {
+                    (n.to_string(), *e.numer(), *e.denom())
+                })
+                .collect()
+        })
+}
